@@ -43,11 +43,12 @@ def compare_forms(src, lf_free):
     return base
 
 
-def c17_forms_free(n):
+def c17_forms_free(n, lf_free=True):
     s = SX.fresh(n)
-    for ch in s:
-        SX.assume(SX.Not(SX.ch_eq(ch, '\n')))
-    return compare_forms(s, True)
+    if lf_free:         # the file form is split into lines by C code: holes must not be line feeds there
+        for ch in s:
+            SX.assume(SX.Not(SX.ch_eq(ch, '\n')))
+    return compare_forms(s, lf_free)
 
 
 def c17_forms_doc(doc):
@@ -98,6 +99,7 @@ def L(n):
 
 
 IDOCS = [
+    lambda a, t: '\\textbf ' + a + t + '\\label ' + a + '\\section[o] s',
     lambda a, t: '\\a{' + a + '}' + t + '\\b[' + a + ']{y}',
     lambda a, t: '\\begin{e}[' + a + ']\\c{' + t + '}$' + a + '$\\end{e}',
     lambda a, t: '\\begin{itemize}\\item ' + a + t + '\\item \\d{' + a + '}\\end{itemize}',
@@ -109,6 +111,12 @@ def edit_all(soup):
     """a battery of edits; each guarded, failures are irrelevant here"""
     done = []
     nodes = [n for n in soup.descendants if isinstance(n, TexNode)]
+    for n in nodes[:5]:
+        try:
+            for g in n.args:
+                g.string = 'E'          # in-place edit of every argument group
+        except Exception as e:
+            done.append(type(e).__name__)
     for k, n in enumerate(nodes[:4]):
         try:
             if k == 0:
@@ -117,6 +125,8 @@ def edit_all(soup):
                 n.args.append('{new}')
                 n.args.reverse()
             elif k == 2:
+                if len(n.args):
+                    n.args[0].string = 'Q'
                 n.delete()
             else:
                 n.replace_with('R')
